@@ -189,6 +189,15 @@ func (c *c08ctx) ruleNumLenExact() {
 			neg := t == "-("+a.x+")" || t == "-1*"+a.x ||
 				(strings.HasPrefix(t, "call (*math/big.Int).Neg(") && strings.HasSuffix(t, ", "+a.x+")"))
 			switch {
+			case isIdentity(t, a.x) && rep == "float64":
+				// a float that is not < 0 may still be -0 (and +0 negated is -0): only a strict sign test, or math.Abs, will do
+				if c08ReachableFrom(a.start, rc, knows(">0")) {
+					msgs = append(msgs, "the float payload is returned unchanged on a path where it may be negative or -0 (a test `< 0` does not see the sign of -0; the plain value's length is math.Abs, which answers 0)")
+				}
+			case neg && rep == "float64":
+				if c08ReachableFrom(a.start, rc, knows("<0")) {
+					msgs = append(msgs, "the negated float payload is returned on a path where it may be positive or +0")
+				}
 			case isIdentity(t, a.x):
 				if c08ReachableFrom(a.start, rc, knows(">=0", ">0")) {
 					msgs = append(msgs, "the payload is returned unchanged on a path where it may be negative")
